@@ -344,7 +344,7 @@ func sessionV2PerRequestRule(p *core.Prog, r *core.Report, r1 *core.RuleH) {
 }
 
 func runC30(p *core.Prog, r *core.Report) {
-	r.Explain = "Decides, as must-pass-through over every nil-error return: (R1) V2 session: the cached common check (FromProtoMessage, Validate, AuthenticateTokenV2 all nil) AND — outside the cache, on every request — Exp() not before chain time, ValidAt(chain time) and AssertVerb(request verb, request container); (R2) V1 session: cached common check (decode, Epoch()==nil, not ExpiredAt, ValidAt, AuthenticateToken==nil) and the per-request relation check (AssertContainer, object relation, verb); (R3) bearer: decode, Epoch()==nil, ValidAt, AuthenticateToken==nil; a cached failure is returned as failure; (R4) every token-check cache is keyed by the SHA-256 of the stable-marshalled whole token message; (R5) the epoch-based caches are purged by the node's new-epoch handler; (R6) what the session caches store under a token's digest is a function of that token: the on-miss callbacks capture only the hashed token and services, and nothing in the cached part of the V2 check (whose lifetime is wall-clock while the cache lives for an epoch) reads a clock. Not covered: signature mathematics, boundary epochs/times, the SDK's Validate."
+	r.Explain = "Decides, as must-pass-through over every nil-error return: (R1) V2 session: the cached common check (FromProtoMessage, Validate, AuthenticateTokenV2 all nil) AND — outside the cache, on every request — Exp() not before chain time, ValidAt(chain time) and AssertVerb(request verb, request container); (R2) V1 session: cached common check (decode, Epoch()==nil, not ExpiredAt, ValidAt, AuthenticateToken==nil) and the per-request relation check (AssertContainer, object relation, verb); (R3) bearer: decode, Epoch()==nil, ValidAt, AuthenticateToken==nil; a cached failure is returned as failure; (R4) every token-check cache is keyed by the SHA-256 of the stable-marshalled whole token message; (R5) the epoch-based caches are purged by the node's new-epoch handler; (R6) what the session caches store under a token's digest is a function of that token: the on-miss callbacks capture only the hashed token and services, and nothing in the cached part of the V2 check (whose lifetime is wall-clock while the cache lives for an epoch) reads a clock; (R7) AuthenticateTokenV2 returns nil only when the token has no origin or the same function (recursion) returned nil for its origin, so every link of a V2 delegation chain is checked down to the root. Not covered: signature mathematics, boundary epochs/times, the SDK's Validate."
 	r1 := r.Rule("C30.R1", "session V2: nil error only after cached common check AND per-request lifetime (chain time) and verb/container assertion", 7)
 	sessionV2PerRequestRule(p, r, r1)
 	core.CheckSuccess(p, r1, core.SuccessRule{Fn: aclV2 + ".decodeAndVerifySessionTokenV2Common", ResultIdx: -1, MinReturns: 1, Guards: []core.Guard{
@@ -451,6 +451,49 @@ func runC30(p *core.Prog, r *core.Report) {
 	r6 := r.Rule("C30.R6", "the verdict cached under a token's digest depends on that token only: on-miss callbacks capture the token and services, and the cached part of the V2 check reads no clock", 5)
 	if n := sessionCacheOnMissPurity(p, r6, p.FuncsIn("pkg/services/object/acl/v2")); n < 2 {
 		r.Fatalf("C30.R6: expected 2 sessions-cache call sites in acl/v2, found %d", n)
+	}
+	// ---- R7 the whole delegation chain is authenticated
+	r7 := r.Rule("C30.R7", "AuthenticateTokenV2 returns nil only if the token has no origin or the SAME check (recursion) passed for its origin: every link of a delegation chain down to the root is signature- and issuer-checked", 2)
+	nInst := 0
+	for _, fn := range p.FuncsIn("internal/crypto") {
+		name := core.FuncName(fn)
+		if name != "internal/crypto.AuthenticateTokenV2" && !strings.HasPrefix(name, "internal/crypto.AuthenticateTokenV2[") {
+			continue
+		}
+		if fn.Blocks == nil || fn.Parent() != nil {
+			continue
+		}
+		nInst++
+		isOrigin := func(v ssa.Value) bool {
+			c, ok := v.(*ssa.Call)
+			if !ok {
+				return false
+			}
+			if c.Call.IsInvoke() {
+				return c.Call.Method.Name() == "Origin"
+			}
+			cal := c.Call.StaticCallee()
+			return cal != nil && cal.Name() == "Origin"
+		}
+		gs := []core.Guard{
+			{Name: "no-origin", Pure: true, Comps: []core.Comp{{Result: -1, Kind: core.IsNil}}, Value: func(_ *ssa.Function, v ssa.Value) bool { return isOrigin(v) }},
+			{Name: "origin-authenticated-by-the-same-check", Comps: []core.Comp{{Result: -1, Kind: core.ErrNil}}, Match: func(s core.Site) bool {
+				cal := core.StaticCallee(s.Call)
+				if cal == nil {
+					return false
+				}
+				cn := core.FuncName(cal)
+				if cn != "internal/crypto.AuthenticateTokenV2" && !strings.HasPrefix(cn, "internal/crypto.AuthenticateTokenV2[") {
+					return false
+				}
+				return len(s.Call.Common().Args) > 0 && isOrigin(core.Unwrap(s.Call.Common().Args[0]))
+			}},
+		}
+		core.CheckSuccessFn(p, r7, fn, core.SuccessRule{ResultIdx: -1, MinReturns: 1, Guards: gs,
+			Derived: []core.Derived{{Name: "chain-authenticated-to-the-root", Alts: [][]string{{"no-origin"}, {"origin-authenticated-by-the-same-check"}}}}, Need: []string{"chain-authenticated-to-the-root"}})
+	}
+	if nInst == 0 {
+		r.Fatalf("C30.R7: no instantiation of AuthenticateTokenV2 found")
 	}
 	// ---- R5 purge wiring
 	r5 := r.Rule("C30.R5", "the epoch-based token-check caches are purged from the node's new-epoch handler", 2)
